@@ -44,6 +44,12 @@ CHECKS.update({
          "values without NUL; custom IFS characters limited to ASCII characters that do not occur in the literal words of the check script (brush also splits literal text at non-whitespace IFS characters: documented upstream gap, outside C04/C05)", "DESIGN.md §3 C04"),
 })
 
+CHECKS.update({
+ "C05": ("grammar-based property testing of unquoted words (piece grammar x variable environment x IFS x directory tree), differential oracle vs bash 5.2.15",
+         "2.5k (quick) / 50k (thorough) generated cases of 3-6 words each, every word evaluated in four contexts (set --, command argument, for list, array literal) under five IFS settings against a fixed tree; argument count, order and contents compared with bash via a length-prefixed dump. Exploration.",
+         "whitespace IFS only (stated domain); bash 5.2.15 reference; a literal `:` directly after a tilde prefix is kept out of the generated words (bash's own rule there depends on quoting later in the word)", "DESIGN.md §3 C05"),
+})
+
 NOT_YET = {}
 
 def hooks():
